@@ -182,6 +182,8 @@ class Task(NamedUIDObject):
             if dynamic:
                 self.append_z3_assertion(resource_busy_end <= self._end)
                 self.append_z3_assertion(resource_busy_start >= self._start)
+                # the resource leaves the task after it has joined it
+                self.append_z3_assertion(resource_busy_start <= resource_busy_end)
             else:
                 if early_out > 0:
                     self.append_z3_assertion(resource_busy_end == self._end - early_out)
